@@ -257,11 +257,12 @@ Theorem generated_twins_same_columns :
 Proof. vm_compute. reflexivity. Qed.
 Print Assumptions generated_twins_same_columns.
 
-(* no create function can fail after its row write, except (geodata handling, known findings) *)
+(* no create function evaluates an argument of the call after its row write, except the single functions that
+   store the (already length-checked / free-form) geodata argument itself; every bulk function only appends frames
+   that were built and validated before the write *)
 Theorem generated_late_failures_only_known :
   subset_str (late_fns all_sigs)
-             ["create_junction"; "create_junctions"; "create_pipe"; "create_pipe_from_parameters";
-              "create_pipes"; "create_pipes_from_parameters"] = true.
+             ["create_junction"; "create_pipe"; "create_pipe_from_parameters"] = true.
 Proof. vm_compute. reflexivity. Qed.
 Print Assumptions generated_late_failures_only_known.
 
